@@ -6,7 +6,6 @@ import NeverModel.Lemmas.VmIpSound
 import NeverModel.Lemmas.VerCert
 import NeverModel.Lemmas.VerLocal
 import NeverModel.Lemmas.VerCalls
-import NeverModel.Lemmas.VerFoot
 /-!
 # C07 — emitted code is well-formed on every path, executed or not
 
@@ -375,13 +374,14 @@ theorem frame_slot_is_read (md : Module) (i : Instr) (orc : Oracle) (d : Int) (h
 /-- **One step inside an activation of a verified module.**  From a machine at its recorded height (`AtHeight`) or at a handler
 entry (`AtHandler`), a step on any instruction other than CALL / RET / RETHROW / HALT / UNHANDLED_EXCEPTION (`Inside`; for
 `MK_INIT_ARRAY` it also asks that the extents on the stack are the recorded constants) leaves `pp` and the stack size alone and
-ends: at the recorded height of the address it reached, in the same function; or at a handler entry — the next address, or the
+ends: at the recorded height of the address it reached, along an edge the certificate knows (`EdgeOk`: same function, the recorded
+calls in preparation are those behind the instruction, no run of `INT` constants continues there except behind an `INT`); or at a handler entry — the next address, or the
 handler the exception table assigns to the faulting address —; or with the machine stopped (`running = 3`). -/
 theorem verified_step_in_activation (md : Module) (orc : Oracle) (sm : Summary) (hm : HMap) (hv : verifyH md = .ok (sm, hm))
     (vm vm' : Vm) (hg : AtHeight md hm vm ∨ AtHandler md hm vm) (hin : Inside md hm vm)
     (hstep : (step md orc).run vm = .ok ((), vm')) :
     vm'.pp = vm.pp ∧ vm'.stackSize = vm.stackSize ∧
-    ((AtHeight md hm vm' ∧ sameFn (funcStarts md) vm.ip vm'.ip = true) ∨
+    ((AtHeight md hm vm' ∧ EdgeOk md hm vm.ip vm'.ip) ∨
      (AtHandler md hm vm' ∧ (vm'.ip = vm.ip + 1 ∨ excHandler md.exctab md.excCount vm.ip = some vm'.ip)) ∨
      vm'.running = 3) :=
   step_good (verifyH_ok md sm hm hv).2 orc vm vm' hg hin hstep
@@ -471,18 +471,21 @@ example : ∀ sm hm, verifyH callModule = .ok (sm, hm) →
     obtain ⟨k, hk⟩ := runInB_runsTo callModule hm _ 4 _ _ hr
     exact ⟨k, v, hk, by simpa using key⟩
 
+
 /-! ## Calls and returns: the global invariant over whole executions
 
 The frame records MARK pushes are followed as a ghost list beside the machine (`Rec`: position `F` of the return-address word =
 `fp` after the MARK, saved `pp`, saved `fp`, return address; `ghostNext`: MARK pushes, RET / RETHROW pop, CLEAR_STACK drops the
-records of calls in preparation).  `Sound md hm bot vm recs` is the global invariant: the stack array has its size; the machine is at
-the recorded height of its address (`sp = pp + nparams + h(ip)`) or at a handler entry; `fp` is the innermost live record and `pp` a
-live record (or the bottom value `bot`); every live record holds its three words and returning through it lands at the recorded
-height of its return address.  What the verifier does NOT establish enters as the per-step side conditions `StepOk`:
-"function objects hold entry addresses of the right arity" (`CallOk`: type soundness of the compiler), "frame words are not
-overwritten" (`FramesKept`: proved below for CALL / CLEAR_STACK / JUMP / JUMPZ, for MARK and RET relative to the record positions; for
-the data opcodes it would need a write-footprint logic over all handlers, and for records of calls in preparation the verifier does
-not track them), and the recorded constants of `MK_INIT_ARRAY`. -/
+records of calls in preparation).  The certificate records, per address, the calls in preparation (`AbsSt.marks`: the heights of
+their MARKs) and re-checks (`pendOkAt`) that they are properly nested and that no instruction pops, slides or writes into their five
+words; it also re-checks that the extents of every MK_INIT_ARRAY are the `INT` instructions immediately before it and that no control
+transfer lands behind an `INT` (`intRun`).  `Sound md hm bot vm recs` is the global invariant: the stack array has its size; `fp` is the
+innermost live record; the live records are apart (`Desc5`), hold their three words, and returning through each lands at the recorded
+height of its return address with the records below it exactly as the function that pushed it will expect (`WF`); and the machine is
+at the recorded height of its address, with the pending records where the certificate says and the constants of the `INT` run on
+the stack (`Here`), or at a handler entry.  What the verifier cannot establish enters as the per-step side conditions `StepOk`, two
+typing matters: the function value at a CALL has the arity of its call site (`CalleeArity`), and the allocator hands an `INT` a free
+cell (`AllocFresh`: the collector's bookkeeping is intact, which C09 proves of well-typed heap histories). -/
 
 /-- **The size of the stack array is an invariant of execution** (any module, any instruction: every stack write of M-VM is in
 bounds or a crash): a `step` from a machine whose stack array has the configured size ends in such a machine. -/
@@ -490,79 +493,80 @@ theorem stack_size_invariant (md : Module) (orc : Oracle) (vm vm' : Vm) (hs : St
     (hstep : (step md orc).run vm = .ok ((), vm')) : StackOk vm' ∧ vm'.stackSize = vm.stackSize :=
   step_keeps_stackOk md orc vm vm' hs hstep
 
-/-- **CALL in a verified module** (marked or last call), from a state satisfying the global invariant, when the function value on
-top is nil or the entry of a function with as many parameters as arguments were pushed above the frame record (`CallOk`): the callee
-is entered at its recorded height 0 with `pp = fp` and `sp = pp + nparams(callee)` — or nil_pointer is raised and control is at the
-handler of the CALL's address —; the live records are unchanged and the invariant holds again. -/
-theorem verified_call_step (md : Module) (orc : Oracle) (sm : Summary) (hm : HMap) (hv : verifyH md = .ok (sm, hm)) (bot : Int)
-    (vm vm' : Vm) (recs : List Rec) (i : Instr) (hi : md.code[vm.ip]? = some i) (hop : i.op = .CALL)
-    (hs : Sound md hm bot vm recs) (hstep : (step md orc).run vm = .ok ((), vm')) (hok : StepOk md hm vm vm' recs) :
-    Sound md hm bot vm' recs := by
-  have h := sound_CALL (verifyH_ok md sm hm hv).2 orc vm vm' recs i hi hop hs hstep hok
-  rwa [ghostNext_other hi (by rw [hop]; decide) (by rw [hop]; decide) (by rw [hop]; decide) (by rw [hop]; decide)] at h
+/-- **Write footprint of the verifier's effect table** (all 198 opcodes, any machine state): the handler of an instruction to
+which `simpleEffect` assigns `(pops, pushes)`, started with stack pointer `sp` and run to completion or to a raised exception, leaves
+every stack slot below `sp − pops + 1` — everything under its lowest operand — exactly as it was.  (A fourth effect logic,
+`NoWr`/`Foot`/`FootAt` in Lemmas/VmNoWr.lean, VmFoot*.lean, reusing the `sp` bookkeeping of `EffAt`.) -/
+theorem effect_table_write_footprint (md : Module) (ins : Instr) (orc : Oracle) (p q : Nat) (h : simpleEffect ins = some (p, q))
+    (vm vm' : Vm) (hr : (exec md ins orc).run vm = .ok ((), vm')) (j : Int) (hj : j < vm.sp - (p : Int) + 1) : slot vm' j = slot vm j :=
+  exec_foot_table md ins orc p q h vm.sp vm () vm' rfl hr j hj
 
-/-- **A call returns to its MARK with exactly its result.**  RET in a verified module, from a state satisfying the global invariant
-with innermost live record `r` (pushed by the MARK executed at stack pointer `sp₀ = r.F − 5`, in a frame with `pp = r.pp`, `fp = r.fp`,
-return address `r.ra`): the machine is running at `r.ra` with `sp = r.F − 4 = sp₀ + 1` — the frame record and everything above it
-popped, the one result pushed —, `pp` and `fp` restored to their values at the MARK; the record is no longer live, and the invariant
-holds again (in particular `sp = pp + nparams + h(r.ra)`: the recorded height of the return address). -/
-theorem verified_ret_step (md : Module) (orc : Oracle) (sm : Summary) (hm : HMap) (hv : verifyH md = .ok (sm, hm)) (bot : Int)
-    (vm vm' : Vm) (recs : List Rec) (i : Instr) (hi : md.code[vm.ip]? = some i) (hop : i.op = .RET)
-    (hs : Sound md hm bot vm recs) (hstep : (step md orc).run vm = .ok ((), vm')) (hok : StepOk md hm vm vm' recs) :
-    ∃ r rs, recs = r :: rs ∧ vm'.ip = r.ra ∧ vm'.sp = r.F - 4 ∧ vm'.fp = r.fp ∧ vm'.pp = r.pp ∧ vm'.running = 1 ∧ Sound md hm bot vm' rs := by
-  obtain ⟨h, r, rs, e1, e2, e3, e4, e5, e6, e7⟩ := sound_RET (verifyH_ok md sm hm hv).2 orc vm vm' recs i hi hop hs hstep hok
-  rw [e2] at h
-  exact ⟨r, rs, e1, e3, e4, e5, e6, e7, h⟩
+/-- **"Frame words are not overwritten" is a theorem about verified modules.**  In a verified module, from a machine at its recorded
+height (`sp = pp + nparams + h(ip)`) a step on ANY instruction other than RET / RETHROW leaves every stack slot at or below
+`recTop` as it was, where `recTop` is the top word of the innermost frame record of a call in preparation (`pp + nparams + m + 5` for
+the innermost recorded MARK height `m`) or `pp` when no call is in preparation: the instruction's operands lie above the pending
+records (`pendOkAt`), it writes nothing under its lowest operand (`effect_table_write_footprint`; MARK writes above the top; SLIDE
+only what it moves; PUSH_PARAM only pushes; MK_INIT_ARRAY only its result slot — given the extents on the stack are the recorded
+constants, which `Here.mk_init` provides).  Hence (`Split.le_top`) no word of any live frame record — pending, entered, or of a caller —
+is touched; RET / RETHROW write exactly the lowest word of the record they pop (`ret_keeps_below`). -/
+theorem verified_step_keeps_frame_records (md : Module) (orc : Oracle) (sm : Summary) (hm : HMap) (hv : verifyH md = .ok (sm, hm))
+    (vm vm' : Vm) (i : Instr) (st : AbsSt) (hi : md.code[vm.ip]? = some i) (hs : hm[vm.ip]? = some (some st)) (hrun : vm.running = 1)
+    (hinv : vm.sp = vm.pp + (fnParamsAt md vm.ip : Int) + (st.h : Int)) (hnot : i.op ≠ .RET ∧ i.op ≠ .RETHROW)
+    (hmk : i.op = .MK_INIT_ARRAY → stackInts vm i.w0 vm.sp = initExts st i.w0)
+    (hstep : (step md orc).run vm = .ok ((), vm')) :
+    ∀ j, j ≤ recTop vm.pp (vm.pp + (fnParamsAt md vm.ip : Int)) st.marks → slot vm' j = slot vm j :=
+  step_keeps_records (verifyH_ok md sm hm hv).2 orc vm vm' i st hi hs hrun hinv hnot hmk hstep
 
-/-- the record a MARK pushes: `F = sp + 5`, the `pp` and `fp` of the moment, the MARK's return address.  (With `verified_ret_step`: the
-RET that pops it continues at that return address with `sp = (sp before the MARK) + 1`, `pp`/`fp` as before the MARK.) -/
+/-- in particular **a verified function never writes at or below its frame base `pp`**: the frame record it was entered through and
+all frames of its callers are out of its reach -/
+theorem verified_step_keeps_callers_frames (md : Module) (orc : Oracle) (sm : Summary) (hm : HMap) (hv : verifyH md = .ok (sm, hm))
+    (vm vm' : Vm) (i : Instr) (hi : md.code[vm.ip]? = some i) (hh : AtHeight md hm vm)
+    (hop : (simpleEffect i).isSome = true ∨ i.op = .MARK ∨ i.op = .SLIDE ∨ i.op = .CALL ∨ i.op = .CLEAR_STACK ∨ i.op = .JUMP)
+    (hstep : (step md orc).run vm = .ok ((), vm')) : ∀ j, j ≤ vm.pp → slot vm' j = slot vm j :=
+  step_keeps_below_pp (verifyH_ok md sm hm hv).2 orc vm vm' i hi hh hop hstep
+
+/-- **The extents of MK_INIT_ARRAY over executions.**  In a state satisfying the invariant (`Here`), at a MK_INIT_ARRAY the integers
+the top `dims` slots point at ARE the constants the verifier recorded: they are the operands of the `dims` `INT` instructions
+immediately before it (certificate), each of which extended the run of constants on the stack (`int_extends_consts`: `INT` allocates a
+fresh cell — side condition `AllocFresh` — and pushes it, touching no older cell), and control cannot have entered the run from
+elsewhere (no jump target, return address, function or handler entry lies behind an `INT`). -/
+theorem verified_mk_init_array_extents (md : Module) (sm : Summary) (hm : HMap) (hv : verifyH md = .ok (sm, hm)) (bot : Int)
+    (vm : Vm) (recs : List Rec) (hh : Here md hm bot vm recs) (i : Instr) (st : AbsSt)
+    (hi : md.code[vm.ip]? = some i) (hs : hm[vm.ip]? = some (some st)) (hop : i.op = .MK_INIT_ARRAY) :
+    stackInts vm i.w0 vm.sp = initExts st i.w0 :=
+  hh.mk_init (verifyH_ok md sm hm hv).2 hi hs hop
+
+/-- **The arity condition is a statement about the function value alone.**  In a state satisfying the invariant, at a CALL, `fp` is
+the frame record of the call in preparation (or `pp` for a last call), so the number of slots between it and the function value on
+top is `callArgs md hm ip` — a number the certificate fixes per call site.  What remains to be assumed of a CALL (`CalleeArity`) is
+therefore only: the function object on top holds nil or the entry address of a function with that many parameters.
+WHY THIS IS A TYPING MATTER: which function value reaches a call site is decided by data flow through variables, closures, records
+and arrays — the bytecode carries no types, a `func` object is just (environment, address), and `CALL` jumps to whatever address it
+finds.  That every value flowing to the site `f(a₁ … aₙ)` is a function of `n` parameters is exactly what the type checker establishes
+(`f : (T₁ … Tₙ) → T`; C06) and what compiling preserves (C02); the verifier, which sees one module's code and not the values, cannot.
+`arityModule` (below) verifies and violates it. -/
+theorem callee_arity_suffices (md : Module) (sm : Summary) (hm : HMap) (hv : verifyH md = .ok (sm, hm)) (bot : Int)
+    (vm : Vm) (recs : List Rec) (i : Instr) (hi : md.code[vm.ip]? = some i) (hop : i.op = .CALL)
+    (hfp : vm.fp = topF bot recs) (hh : Here md hm bot vm recs) (h : CalleeArity md hm vm) : CallOk md vm :=
+  calleeArity_callOk (verifyH_ok md sm hm hv).2 hi hop hfp hh h
+
+/-- the record a MARK pushes: `F = sp + 5`, the `pp` and `fp` of the moment, the MARK's return address -/
 theorem mark_pushes_record (md : Module) (vm : Vm) (recs : List Rec) (i : Instr) (hi : md.code[vm.ip]? = some i) (hop : i.op = .MARK) :
     ghostNext md vm recs = { F := vm.sp + 5, pp := vm.pp, fp := vm.fp, ra := i.w0 } :: recs := by
   unfold ghostNext; simp only [hi, hop]
 
-/-- **A complete (balanced) call returns behind its MARK with exactly its result.**  Let a verified module's machine satisfy the
-global invariant with live records `recs`, about to execute `MARK ra` at stack pointer `sp₀`.  After the MARK (the live records are
-`r₀ :: recs`, `r₀` = the record it pushed), let the run go on in any way — arguments, nested calls, the CALL itself, the whole callee,
-exceptions caught inside — (`RunsG`, side conditions `StepOk` at every step) to a running state whose live records are again exactly
-`r₀ :: recs` and whose instruction is `RET`.  Then that RET — the matching one — continues at `ra` with `sp = sp₀ + 1` (frame record,
-arguments and everything the callee pushed are gone; the one result is pushed), `fp` and `pp` as they were at the MARK, and the global
-invariant holds with live records `recs`: in particular `sp = pp + nparams + h(ra)`, the height the verifier recorded behind the call. -/
-theorem verified_marked_call_returns (md : Module) (sm : Summary) (hm : HMap) (hv : verifyH md = .ok (sm, hm)) (bot : Int)
-    (vm v1 v2 v3 : Vm) (recs : List Rec) (i j : Instr) (orc1 orc3 : Oracle) (k : Nat)
-    (hs : Sound md hm bot vm recs)
-    (hi : md.code[vm.ip]? = some i) (hop : i.op = .MARK)
-    (hstep1 : (step md orc1).run vm = .ok ((), v1)) (hok1 : StepOk md hm vm v1 recs)
-    (hrun : RunsG md hm k v1 ({ F := vm.sp + 5, pp := vm.pp, fp := vm.fp, ra := i.w0 } :: recs) v2 ({ F := vm.sp + 5, pp := vm.pp, fp := vm.fp, ra := i.w0 } :: recs))
-    (hr2 : v2.running = 1) (hj : md.code[v2.ip]? = some j) (hret : j.op = .RET)
-    (hstep3 : (step md orc3).run v2 = .ok ((), v3)) (hok3 : StepOk md hm v2 v3 ({ F := vm.sp + 5, pp := vm.pp, fp := vm.fp, ra := i.w0 } :: recs)) :
-    v3.ip = i.w0 ∧ v3.sp = vm.sp + 1 ∧ v3.fp = vm.fp ∧ v3.pp = vm.pp ∧ v3.running = 1 ∧ Sound md hm bot v3 recs := by
-  have hf := (verifyH_ok md sm hm hv).2
-  have h1 := step_sound hf orc1 vm v1 recs hs hstep1 hok1
-  rw [mark_pushes_record md vm recs i hi hop] at h1
-  -- the machine is still running after the MARK … and at the RET
-  have hs2 : Sound md hm bot v2 ({ F := vm.sp + 5, pp := vm.pp, fp := vm.fp, ra := i.w0 } :: recs) := by
-    rcases h1 with h1 | h1 | h1
-    · rcases runsG_sound hf k v1 v2 _ _ h1 hrun with h | h | h
-      · exact h
-      · omega
-      · omega
-    · cases hrun with
-      | zero => omega
-      | succ _ hr _ _ _ => omega
-    · cases hrun with
-      | zero => omega
-      | succ _ hr _ _ _ => omega
-  obtain ⟨r, rs, e, e1, e2, e3, e4, e5, e6⟩ := verified_ret_step md orc3 sm hm hv bot v2 v3 _ j hj hret hs2 hstep3 hok3
-  cases e
-  exact ⟨e1, by rw [e2]; simp only; omega, e3, e4, e5, e6⟩
-
-/-- **`verify_sound`, relative to its side conditions.**  In a verified module, every run of M-VM — calls, returns, raised and
-re-raised exceptions included — from a state satisfying the global invariant `Sound`, each step of which meets `StepOk`
-(`RunsG`), ends in a state that satisfies the invariant again — running at an address the verifier reached, with exactly
-the stack height it recorded there above the parameters of the running function, or at a handler entry; `fp`/`pp` on live,
-intact frame records —, or the machine stopped (`running = 3`: failed assert / unhandled exception) or halted (`running = 0`).
-PARTIAL: `StepOk` (see its definition) is assumed of every step; of it, the arity of function values is type soundness (C01/C06), and
-"frame words are not overwritten" is proved only for the steps listed at `frame_words_kept`. -/
+/-- **`verify_sound`, relative to two typing conditions.**  In a verified module, every run of M-VM — calls, returns, raised and
+re-raised exceptions included — from a state satisfying the global invariant `Sound`, ends in a state that satisfies it again —
+running at an address the verifier reached, with exactly the stack height it recorded there above the parameters of the running
+function, every frame record intact, or at a handler entry —, or the machine stopped (`running = 3`: failed assert / unhandled
+exception) or halted (`running = 0`) — provided each step meets `StepOk` (`RunsG`):
+ (1) at a CALL the function value has the arity of its call site (`CalleeArity`, see `callee_arity_suffices`);
+ (2) at an `INT` the allocator hands out a free cell (`AllocFresh`; from the heap invariant `Inv` of C09, `alloc_fresh`, which holds
+     along every history of well-typed heap operations: the same typing assumption seen from the collector's side);
+ and a RET / RETHROW finds a live record (the run has not returned out of the activation it was started in).
+No longer assumed, now proved of verified modules: that frame words are not overwritten (`verified_step_keeps_frame_records`), and that
+MK_INIT_ARRAY finds the recorded constants (`verified_mk_init_array_extents`).  PARTIAL for (1) and (2) only; both are checked on every
+replayed step (`stepOkB`). -/
 theorem verify_sound_partial (md : Module) (sm : Summary) (hm : HMap) (hv : verifyH md = .ok (sm, hm)) (bot : Int)
     (n : Nat) (vm vm' : Vm) (recs recs' : List Rec) (hs : Sound md hm bot vm recs) (hr : RunsG md hm n vm recs vm' recs') :
     Sound md hm bot vm' recs' ∨ vm'.running = 3 ∨ vm'.running = 0 :=
@@ -575,80 +579,98 @@ theorem verify_sound_from_start_partial (md : Module) (sm : Summary) (hm : HMap)
     Sound md hm (-1) vm' recs' ∨ vm'.running = 3 ∨ vm'.running = 0 :=
   verify_sound_partial md sm hm hv (-1) n _ vm' [] recs' (sound_initial (verifyH_ok md sm hm hv).2 mem stack gcMode) hr
 
-/-- **"Frame words are not overwritten": what is proved.**  The three words of every live record are left alone by a step on
-CALL, CLEAR_STACK, JUMP, JUMPZ (no stack write at all); by MARK for every record at or below the top of stack (it writes only above);
-by RET for every record strictly below the slot of the popped record's saved `pp` (the only slot it writes: the result). -/
-theorem frame_words_kept (md : Module) (orc : Oracle) (vm vm' : Vm) (recs : List Rec) (i : Instr) (hi : md.code[vm.ip]? = some i)
-    (hstep : (step md orc).run vm = .ok ((), vm')) :
-    ((i.op = .CALL ∨ i.op = .CLEAR_STACK ∨ i.op = .JUMP ∨ i.op = .JUMPZ) → FramesKept md vm vm' recs) ∧
-    (i.op = .MARK → vm.running = 1 → StackOk vm → (∀ r, r ∈ recs → r.F ≤ vm.sp) → FramesKept md vm vm' recs) ∧
-    (i.op = .RET → StackOk vm → (∀ r, r ∈ recs.tail → r.F < vm.fp - 4) → FramesKept md vm vm' recs) :=
-  ⟨fun h => framesKept_control orc vm vm' recs i hi h hstep,
-   fun h hr hs hb => framesKept_MARK orc vm vm' recs i hi h hr hs hb hstep,
-   fun h hs hb => framesKept_RET orc vm vm' recs i hi h hs hb hstep⟩
+/-- one step of it (any instruction) -/
+theorem verify_sound_step_partial (md : Module) (orc : Oracle) (sm : Summary) (hm : HMap) (hv : verifyH md = .ok (sm, hm)) (bot : Int)
+    (vm vm' : Vm) (recs : List Rec) (hs : Sound md hm bot vm recs) (hstep : (step md orc).run vm = .ok ((), vm'))
+    (hok : StepOk md hm vm recs) : Sound md hm bot vm' (ghostNext md vm recs) ∨ vm'.running = 3 ∨ vm'.running = 0 :=
+  step_sound (verifyH_ok md sm hm hv).2 orc vm vm' recs hs hstep hok
 
-/-- **Write footprint of the verifier's effect table** (all 198 opcodes, any machine state): the handler of an instruction to
-which `simpleEffect` assigns `(pops, pushes)`, started with stack pointer `sp` and run to completion or to a raised exception, leaves
-every stack slot below `sp − pops + 1` — everything under its lowest operand — exactly as it was.  (A fourth effect logic,
-`NoWr`/`Foot`/`FootAt` in Lemmas/VmNoWr.lean, VmFoot*.lean, reusing the `sp` bookkeeping of `EffAt`.) -/
-theorem effect_table_write_footprint (md : Module) (ins : Instr) (orc : Oracle) (p q : Nat) (h : simpleEffect ins = some (p, q))
-    (vm vm' : Vm) (hr : (exec md ins orc).run vm = .ok ((), vm')) (j : Int) (hj : j < vm.sp - (p : Int) + 1) : slot vm' j = slot vm j :=
-  exec_foot_table md ins orc p q h vm.sp vm () vm' rfl hr j hj
+/-- **A call returns to its MARK with exactly its result.**  RET in a verified module, from a state satisfying the global invariant
+with innermost live record `r` (pushed by the MARK executed at stack pointer `sp₀ = r.F − 5`, in a frame with `pp = r.pp`, `fp = r.fp`,
+return address `r.ra`): the machine is running at `r.ra` with `sp = r.F − 4 = sp₀ + 1` — the frame record and everything above it
+popped, the one result pushed —, `pp` and `fp` restored to their values at the MARK; the record is no longer live, and the invariant
+holds again (in particular `sp = pp + nparams + h(r.ra)`: the recorded height of the return address). -/
+theorem verified_ret_step (md : Module) (orc : Oracle) (sm : Summary) (hm : HMap) (hv : verifyH md = .ok (sm, hm)) (bot : Int)
+    (vm vm' : Vm) (recs : List Rec) (i : Instr) (hi : md.code[vm.ip]? = some i) (hop : i.op = .RET)
+    (hs : Sound md hm bot vm recs) (hstep : (step md orc).run vm = .ok ((), vm')) (hne : recs ≠ []) :
+    ∃ r rs, recs = r :: rs ∧ vm'.ip = r.ra ∧ vm'.sp = r.F - 4 ∧ vm'.fp = r.fp ∧ vm'.pp = r.pp ∧ vm'.running = 1 ∧ Sound md hm bot vm' rs := by
+  obtain ⟨hso, hfp, hd, hwf, hcase⟩ := hs
+  have hrun : vm.running = 1 := by
+    rcases hcase with h | h
+    · exact h.height.1
+    · exact h.1.1
+  obtain ⟨h, r, rs, e1, e2, e3, e4, e5, e6, e7⟩ := sound_RET (verifyH_ok md sm hm hv).2 orc vm vm' recs i hi hop hso hfp hd hwf hrun hne hstep
+  rw [e2] at h
+  exact ⟨r, rs, e1, e3, e4, e5, e6, e7, h⟩
 
-/-- **A verified function never writes at or below its frame base `pp`** — "stores never hit the frame words below `pp + 1`".  In a
-verified module, from a machine at its recorded height (`sp = pp + nparams + h(ip)`), a step on any instruction of the effect table
-(its operands exist above the parameters, and it writes nothing under its lowest operand), on MARK (writes above the top), SLIDE
-(what it moves stays above `pp`; in the last-call case exactly the parameter block `pp + 1 …`), CALL, CLEAR_STACK or JUMP leaves every
-stack slot `j ≤ pp` as it was: the frame record the running function was entered through and all frames of its callers.  Hence every
-live record with `F ≤ pp` keeps its three words (`framesKept_below_pp`): of the side condition "frame words are not overwritten" only
-the records of calls *in preparation* in the running function (above `pp`), `MK_INIT_ARRAY`, `PUSH_PARAM` and the slot RET writes
-remain assumed. -/
-theorem verified_step_keeps_callers_frames (md : Module) (orc : Oracle) (sm : Summary) (hm : HMap) (hv : verifyH md = .ok (sm, hm))
-    (vm vm' : Vm) (i : Instr) (hi : md.code[vm.ip]? = some i) (hh : AtHeight md hm vm)
-    (hop : (simpleEffect i).isSome = true ∨ i.op = .MARK ∨ i.op = .SLIDE ∨ i.op = .CALL ∨ i.op = .CLEAR_STACK ∨ i.op = .JUMP)
-    (hstep : (step md orc).run vm = .ok ((), vm')) :
-    (∀ j, j ≤ vm.pp → slot vm' j = slot vm j) ∧
-    (∀ r : Rec, r.F ≤ vm.pp → slot vm' (r.F - 4) = slot vm (r.F - 4) ∧ slot vm' (r.F - 1) = slot vm (r.F - 1) ∧ slot vm' r.F = slot vm r.F) :=
-  ⟨step_keeps_below_pp (verifyH_ok md sm hm hv).2 orc vm vm' i hi hh hop hstep,
-   fun r hr => framesKept_below_pp (verifyH_ok md sm hm hv).2 orc vm vm' i hi hh hop hstep r hr⟩
+/-- **A complete (balanced) call returns behind its MARK with exactly its result.**  Let a verified module's machine satisfy the
+global invariant with live records `recs`, about to execute `MARK ra` at stack pointer `sp₀`.  After the MARK (the live records are
+`r₀ :: recs`, `r₀` = the record it pushed), let the run go on in any way — arguments, nested calls, the CALL itself, the whole callee,
+exceptions caught inside — (`RunsG`: the two typing conditions at every step) to a running state whose live records are again exactly
+`r₀ :: recs` and whose instruction is `RET`.  Then that RET — the matching one — continues at `ra` with `sp = sp₀ + 1` (frame record,
+arguments and everything the callee pushed are gone; the one result is pushed), `fp` and `pp` as they were at the MARK, and the global
+invariant holds with live records `recs`: in particular `sp = pp + nparams + h(ra)`, the height the verifier recorded behind the call. -/
+theorem verified_marked_call_returns (md : Module) (sm : Summary) (hm : HMap) (hv : verifyH md = .ok (sm, hm)) (bot : Int)
+    (vm v1 v2 v3 : Vm) (recs : List Rec) (i j : Instr) (orc1 orc3 : Oracle) (k : Nat)
+    (hs : Sound md hm bot vm recs)
+    (hi : md.code[vm.ip]? = some i) (hop : i.op = .MARK)
+    (hstep1 : (step md orc1).run vm = .ok ((), v1))
+    (hrun : RunsG md hm k v1 ({ F := vm.sp + 5, pp := vm.pp, fp := vm.fp, ra := i.w0 } :: recs) v2 ({ F := vm.sp + 5, pp := vm.pp, fp := vm.fp, ra := i.w0 } :: recs))
+    (hr2 : v2.running = 1) (hj : md.code[v2.ip]? = some j) (hret : j.op = .RET)
+    (hstep3 : (step md orc3).run v2 = .ok ((), v3)) :
+    v3.ip = i.w0 ∧ v3.sp = vm.sp + 1 ∧ v3.fp = vm.fp ∧ v3.pp = vm.pp ∧ v3.running = 1 ∧ Sound md hm bot v3 recs := by
+  have hf := (verifyH_ok md sm hm hv).2
+  have hok1 : StepOk md hm vm recs := by
+    intro i' hi'
+    rw [hi] at hi'
+    cases hi'
+    refine ⟨fun h => ?_, fun h => ?_, fun h => ?_⟩
+    · rw [hop] at h; cases h
+    · rcases h with h | h <;> (rw [hop] at h; cases h)
+    · rw [hop] at h; cases h
+  have h1 := step_sound hf orc1 vm v1 recs hs hstep1 hok1
+  rw [mark_pushes_record md vm recs i hi hop] at h1
+  have hs2 : Sound md hm bot v2 ({ F := vm.sp + 5, pp := vm.pp, fp := vm.fp, ra := i.w0 } :: recs) := by
+    rcases h1 with h1 | h1 | h1
+    · rcases runsG_sound hf k v1 v2 _ _ h1 hrun with h | h | h
+      · exact h
+      · omega
+      · omega
+    · cases hrun with
+      | zero => omega
+      | succ _ hr _ _ _ => omega
+    · cases hrun with
+      | zero => omega
+      | succ _ hr _ _ _ => omega
+  obtain ⟨r, rs, e, e1, e2, e3, e4, e5, e6⟩ := verified_ret_step md orc3 sm hm hv bot v2 v3 _ j hj hret hs2 hstep3 (by simp)
+  cases e
+  exact ⟨e1, by rw [e2]; simp only; omega, e3, e4, e5, e6⟩
 
-/-- **`verify_sound` with the frame-word condition reduced to what is not proved.**  As `verify_sound_partial`, but of "frame words are
-not overwritten" the steps are only asked (`StepOkP`, runs `RunsP`) to keep the words of live records ABOVE `pp` — the records of calls
-being prepared in the running function, which the verifier does not track (`slideModule`) — and, for the four opcodes MK_INIT_ARRAY,
-PUSH_PARAM, RET, RETHROW, of all live records that stay live; that no instruction of the effect table, no MARK, SLIDE, CALL, CLEAR_STACK,
-JUMP touches a frame record at or below `pp` is `verified_step_keeps_callers_frames`.  The other side conditions are unchanged: the
-arity of function values at CALL (type soundness), a live record at RET, the recorded constants of MK_INIT_ARRAY. -/
-theorem verify_sound_pending_partial (md : Module) (sm : Summary) (hm : HMap) (hv : verifyH md = .ok (sm, hm)) (bot : Int)
-    (n : Nat) (vm vm' : Vm) (recs recs' : List Rec) (hs : Sound md hm bot vm recs) (hr : RunsP md hm n vm recs vm' recs') :
-    Sound md hm bot vm' recs' ∨ vm'.running = 3 ∨ vm'.running = 0 :=
-  verify_sound_partial md sm hm hv bot n vm vm' recs recs' hs (runsP_runsG (verifyH_ok md sm hm hv).2 n vm vm' recs recs' hs hr)
-
-/-- on the run of `callModule`: between the entry of `f` (5 steps: `pp = 4`, the record in slots 0 … 4) and its RET (9 steps) the
-slots 0 … 4 are untouched, while slot 5 and above are worked on -/
-example : (match run callModule (fun _ => {}) 5 (beginExecute callModule (Vm.new 64 32)),
-                 run callModule (fun _ => {}) 9 (beginExecute callModule (Vm.new 64 32)) with
-    | .ok a, .ok b => a.pp == 4 && b.pp == 4 && b.ip == 12 && (List.range 5).all (fun j => slot b j == slot a j) && slot b 6 != slot a 6
-    | _, _ => false) = true := by decide +kernel
-
-/-- the global invariant holds of the start machine of `callModule`, and a whole run of it — MARK, the argument, the function value,
-CALL into `f`, `x + 1`, RET back behind the CALL, HALT — passes the addresses 0 … 5, 8 … 12 and ends halted with exactly the result
-on the stack (`sp = 0`), `fp = pp = −1` restored -/
+/-- the global invariant holds of the start machine of `callModule` -/
 example : ∀ sm hm, verifyH callModule = .ok (sm, hm) → Sound callModule hm (-1) (beginExecute callModule (Vm.new 64 32)) [] :=
   fun sm hm hv => sound_initial (verifyH_ok callModule sm hm hv).2 64 32 0
 
-example : (match run callModule (fun _ => {}) 11 (beginExecute callModule (Vm.new 64 32)) with
-    | .ok v => v.running == 0 && v.ip == 6 && v.sp == 0 && v.fp == -1 && v.pp == -1
+/-- the certificate's record of the calls in preparation in `callModule`: between the MARK at 0 (height 0) and its CALL at 4 -/
+example : (match verifyH callModule with
+    | .ok (_, hm) => (hm.toList.take 9).map (fun o => o.map (·.marks)) ==
+        [some [], some [0], some [0], some [0], some [0], some [], some [], some [], some []]
     | .error _ => false) = true := by decide +kernel
 
-/-- … and inside the callee, after the CALL (5 steps), the machine is at the function entry with `pp = fp = 4` (the record),
-`sp = pp + 1` (one parameter), i.e. at the recorded height 0 -/
-example : (match run callModule (fun _ => {}) 5 (beginExecute callModule (Vm.new 64 32)) with
-    | .ok v => v.running == 1 && v.ip == 8 && v.pp == 4 && v.fp == 4 && v.sp == v.pp + 1 + 0
-    | .error _ => false) = true := by decide +kernel
+/-- a whole run of `callModule` — MARK, the argument, the function value, CALL into `f`, `x + 1`, RET back behind the CALL, HALT —
+ends halted with exactly the result on the stack (`sp = 0`), `fp = pp = −1` restored; inside the callee (5 steps) `pp = fp = 4` (the
+record), `sp = pp + 1`; between the entry of `f` and its RET (9 steps) the slots 0 … 4 of the record are untouched -/
+example : (match run callModule (fun _ => {}) 11 (beginExecute callModule (Vm.new 64 32)),
+                 run callModule (fun _ => {}) 5 (beginExecute callModule (Vm.new 64 32)),
+                 run callModule (fun _ => {}) 9 (beginExecute callModule (Vm.new 64 32)) with
+    | .ok v, .ok a, .ok b =>
+      v.running == 0 && v.ip == 6 && v.sp == 0 && v.fp == -1 && v.pp == -1 &&
+      a.running == 1 && a.ip == 8 && a.pp == 4 && a.fp == 4 && a.sp == a.pp + 1 + 0 &&
+      b.pp == 4 && b.ip == 12 && (List.range 5).all (fun j => slot b j == slot a j) && slot b 6 != slot a 6
+    | _, _, _ => false) = true := by decide +kernel
 
 /-- **the side conditions `StepOk` are satisfiable on a run with a call and a return**: the whole run of `callModule` from its start
-machine to HALT (11 steps: MARK … CALL, the callee, RET, HALT) is a `RunsG` run — every step meets the side conditions (checked by
-the decidable `stepOkB`, sound by `stepOkB_sound`) —, so `verify_sound_partial` applies to it -/
+machine to HALT (11 steps) is a `RunsG` run — every step meets the side conditions (checked by the decidable `stepOkB`, sound by
+`stepOkB_sound`) —, so `verify_sound_partial` applies to it -/
 example : ∀ sm hm, verifyH callModule = .ok (sm, hm) →
     ∃ k vm' recs', RunsG callModule hm k (beginExecute callModule (Vm.new 64 32)) [] vm' recs' ∧ vm'.running = 0 ∧ recs' = [] := by
   intro sm hm hv
@@ -669,15 +691,11 @@ example : ∀ sm hm, verifyH callModule = .ok (sm, hm) →
     obtain ⟨k, hk⟩ := runGB_runsG callModule hm _ 11 _ _ _ _ hr
     exact ⟨k, v, rs, hk, key.1, key.2⟩
 
-/-- (a run meeting `StepOk` meets the weaker `StepOkP` of `verify_sound_pending_partial`: the same run is an instance of it) -/
-example (md : Module) (hm : HMap) (n : Nat) (vm vm' : Vm) (recs recs' : List Rec) (h : RunsG md hm n vm recs vm' recs') :
-    RunsP md hm n vm recs vm' recs' := runsG_runsP n vm vm' recs recs' h
-
 /-- **the arity side condition is needed** (the verifier cannot know it: function values are dynamic).  `arityModule` is `callModule`
-with a second argument pushed for the one-parameter function `f`.  It verifies — every height re-checks —, but its run enters `f` with
-`sp = pp + 2`: one slot above the recorded height 0 of the entry, so `AtHeight` fails there, `f` adds the wrong operands' neighbours
-and returns with its "result" above a stale slot.  `stepOkB` refuses exactly the CALL (step 5): the decidable side-condition check
-returns `none`. In the language this is excluded by the type checker (C06), not by the bytecode verifier. -/
+with a second argument pushed for the one-parameter function `f`.  It verifies — every height, every pending record re-checks; the
+call site passes `callArgs = 2` —, but its run enters `f`, a function of 1 parameter, with `sp = pp + 2`: one slot above the recorded
+height 0 of the entry.  `stepOkB` refuses exactly the CALL (step 5).  In the language this is excluded by the type checker (C06), not
+by the bytecode verifier. -/
 def arityModule : Module := { callModule with
   code := #[⟨.MARK, 6, 0, 0⟩, ⟨.INT, 7, 0, 0⟩, ⟨.INT, 9, 0, 0⟩, ⟨.GLOBAL_VEC, 0, 0, 0⟩, ⟨.ID_FUNC_ADDR, 9, 0, 0⟩, ⟨.CALL, 0, 0, 0⟩, ⟨.HALT, 0, 0, 0⟩,
             ⟨.LABEL, 0, 0, 0⟩, ⟨.UNHANDLED_EXCEPTION, 0, 0, 0⟩,
@@ -687,7 +705,7 @@ def arityModule : Module := { callModule with
 
 example : (match verifyH arityModule with
     | .ok (_, hm) =>
-      -- verified; the side-condition check fails; and after the CALL (6 steps) the machine is NOT at the recorded height of the entry
+      callArgs arityModule hm 5 == 2 && fnParamsAt arityModule 9 == 1 &&
       (runGB arityModule hm (fun _ => {}) 12 (beginExecute arityModule (Vm.new 64 32)) []).isNone &&
       (runGB arityModule hm (fun _ => {}) 5 (beginExecute arityModule (Vm.new 64 32)) []).isSome &&
       (match run arityModule (fun _ => {}) 6 (beginExecute arityModule (Vm.new 64 32)) with
@@ -695,23 +713,45 @@ example : (match verifyH arityModule with
        | .error _ => false)
     | .error _ => false) = true := by decide +kernel
 
-/-- **the frame-word side condition is needed too, and the verifier as it stands does not imply it for calls in preparation.**
-`slideModule` verifies — `MARK`, one value, then an ordinary `SLIDE 5 1` (`q + m = 6 ≤ h = 6`) that moves the value down over the five
-frame words MARK has just pushed, then the function value and the marked `CALL` —: every height re-checks, but the SLIDE overwrites
-the saved-`pp` word of the live record while `fp` still points at it.  `stepOkB` refuses that step (index 2).  The verifier tracks
-heights, not which slots hold frame records of calls being prepared; the real emitter never slides across a MARK (checked on every
-replayed run by `stepOkB`), but a full `verify_sound` without this side condition is FALSE for `verifyH` as defined. -/
+/-- **calls in preparation are protected by the certificate.**  `slideModule` — `MARK`, one value, then an ordinary `SLIDE 5 1`
+(`q + m = 6 ≤ h = 6`) that would move the value down over the five frame words MARK has just pushed, then the function value and the
+CALL — passed the verifier before the pending-record discipline (every height re-checks) although its SLIDE overwrites the saved-`pp`
+word of a live record.  It is now REJECTED: the SLIDE reaches below the top word of the pending record (`pendFloor + q + m ≤ h` fails:
+`5 + 6 > 6`).  The same code with the value slid only over itself (`SLIDE 0 1`) is accepted. -/
 def slideModule : Module := { callModule with
   code := #[⟨.MARK, 6, 0, 0⟩, ⟨.INT, 1, 0, 0⟩, ⟨.SLIDE, 5, 1, 0⟩, ⟨.GLOBAL_VEC, 0, 0, 0⟩, ⟨.ID_FUNC_ADDR, 9, 0, 0⟩, ⟨.CALL, 0, 0, 0⟩, ⟨.HALT, 0, 0, 0⟩,
             ⟨.LABEL, 0, 0, 0⟩, ⟨.UNHANDLED_EXCEPTION, 0, 0, 0⟩,
             ⟨.FUNC_DEF, 0, 0, 0⟩, ⟨.ID_LOCAL, 0, 0, 0⟩, ⟨.RET, 0, 0, 0⟩, ⟨.LABEL, 0, 0, 0⟩, ⟨.RETHROW, 0, 0, 0⟩],
   exctab := #[⟨0, 7⟩, ⟨9, 12⟩, ⟨4294967295, 0⟩], excCount := 2, entryAddr := 9, fnParams := [(9, 1)] }
 
-example : (match verifyH slideModule with
+example : (match verifyH slideModule, verifyCore slideModule with
+    | .error _, .ok (_, hm) =>
+      -- the heights alone re-check; the pending-record re-check fails at the SLIDE (address 2) and behind it, where the record is still
+      -- recorded as pending although the height has dropped below it
+      (List.range 14).all (fun a => flowOkAt slideModule hm a && frameOkAt slideModule (funcStarts slideModule) hm a) &&
+      !pendOkAt slideModule hm 2 && ((List.range 14).filter (fun a => !pendOkAt slideModule hm a)) == [2, 3, 4, 5]
+    | _, _ => false) = true := by decide +kernel
+
+/-- **MK_INIT_ARRAY**: `arrModule` builds `[7, 8, 9]` (elements, the extent `INT 3`, `MK_INIT_ARRAY 1`) in a function called from the
+entry stub.  It verifies, the extents recorded at address 14 are the `INT` run before it, and its whole run meets the side conditions
+(in particular `AllocFresh` at every `INT`, and — re-validated though proved — the extents on the stack are the recorded ones).  With a
+`LABEL` between the extent and MK_INIT_ARRAY (the extent no longer immediately before) it is rejected. -/
+def arrModule : Module := { callModule with
+  code := #[⟨.MARK, 4, 0, 0⟩, ⟨.GLOBAL_VEC, 0, 0, 0⟩, ⟨.ID_FUNC_ADDR, 7, 0, 0⟩, ⟨.CALL, 0, 0, 0⟩, ⟨.HALT, 0, 0, 0⟩,
+            ⟨.LABEL, 0, 0, 0⟩, ⟨.UNHANDLED_EXCEPTION, 0, 0, 0⟩,
+            ⟨.FUNC_DEF, 0, 0, 0⟩, ⟨.LINE, 1, 0, 0⟩, ⟨.LINE, 1, 0, 0⟩, ⟨.INT, 9, 0, 0⟩, ⟨.INT, 8, 0, 0⟩, ⟨.INT, 7, 0, 0⟩, ⟨.INT, 3, 0, 0⟩,
+            ⟨.MK_INIT_ARRAY, 1, 0, 0⟩, ⟨.RET, 0, 0, 0⟩, ⟨.LABEL, 0, 0, 0⟩, ⟨.RETHROW, 0, 0, 0⟩],
+  exctab := #[⟨0, 5⟩, ⟨7, 16⟩, ⟨4294967295, 0⟩], excCount := 2, entryAddr := 7, fnParams := [(7, 0)] }
+
+example : (match verifyH arrModule with
     | .ok (_, hm) =>
-      (hm.toList.map fun o => o.map (·.h)) == [some 0, some 5, some 6, some 1, some 2, some 2, some 1, some 0, some 0, some 0, some 0, some 1, some 0, some 0] &&
-      (runGB slideModule hm (fun _ => {}) 2 (beginExecute slideModule (Vm.new 64 32)) []).isSome &&
-      (runGB slideModule hm (fun _ => {}) 3 (beginExecute slideModule (Vm.new 64 32)) []).isNone
+      intRun arrModule 14 == [3, 7, 8, 9] && (hm[14]?.map (·.map (fun st => initExts st 1))) == some (some (some [3])) &&
+      (match runGB arrModule hm (fun _ => {}) 14 (beginExecute arrModule (Vm.new 64 32)) [] with
+       | some (v, rs) => v.running == 0 && rs.isEmpty && v.sp == 0
+       | none => false)
     | .error _ => false) = true := by decide +kernel
+
+example : (match verifyH { arrModule with code := (arrModule.code.set! 9 ⟨.INT, 3, 0, 0⟩).set! 13 ⟨.LABEL, 0, 0, 0⟩ } with
+    | .error _ => true | .ok _ => false) = true := by decide +kernel
 
 end Never.C07
